@@ -242,8 +242,20 @@ func checkC06(e *env) {
 			}()
 			out := snap.XKmpDeduplicate(fl)
 			o := make(ring, len(out))
+			cnt := map[ipt]int{}
+			for _, p := range rg {
+				cnt[p]++
+			}
 			for i, v := range out {
 				o[i] = ipt{int64(v[0]), int64(v[1])}
+				cnt[o[i]]--
+			}
+			// the hypothesis KmpNoDup of the theorems C05_no_vertex_twice_partial / C06_ring_cleanup_total_partial, on the real code
+			for p, c := range cnt {
+				if c < 0 {
+					r.violation(Violation{Oracle: "kmpDeduplicate-returns-no-more-copies-of-a-vertex-than-it-was-given", Op: op, Impl: fmtRing(o), Detail: fmt.Sprintf("vertex (%d,%d) occurs %d more time(s) in the result", p.x, p.y, -c)})
+					break
+				}
 			}
 			return "ok " + fmtRing(o)
 		}()
